@@ -32,6 +32,12 @@ claimed={
         'The owner final timeline must equal the reference model (gapless, fills repeat, drops drop), every remote peer and spectator must equal the owner on every confirmed frame, nobody freezes, nothing stays stranded in the outgoing buffer, no call panics.'),
  'C12':(M,'6 C12','stateful exploration (visited set) of every fate of every handshake packet, k<=2/3 fault enumeration at three poll cadences, forged replies at every round, silence-length grids, poll-only cadence grids, undrained queues; oracles: per-address event grammar automaton, round trips matched by the simulated network, timer reference model',
         'The event stream of every explored execution must be accepted by the grammar automaton; Running must coincide, call by call, with 5 network-matched round trips per remote; interruption/resume/disconnect rounds must equal the timer model; the undrained queue must stay <= 100.'),
+ 'C16':(M,'6 C16','word sweep over all sequences of builder calls (48-call alphabet, length <=3 quick / <=4 thorough) x the three start_* calls against a reference validity model, accepted sessions driven; run-time misuse calls inserted at every round of valid runs with a differential oracle',
+        'Every builder call must fail exactly when the reference model of the documented rules says so, with InvalidRequest, never a panic; accepted sessions can be driven; rejected run-time calls return the documented error and leave the run identical to the run without them.'),
+ 'C17':(M,'6 C17','grid: scenarios x hash seeds enumerated until every iteration order of every registry map has occurred (completeness asserted and reported) x rng seeds; each run compared with the reference run (request lists, states, per-address event sequences)',
+        'Under every enumerated hash-map iteration order and handshake random seed the observable behaviour of every session must be identical to the reference run.'),
+ 'C18':(D,'6 C18','grid of long runs (1500 / 5000 rounds) over topologies incl. all-local, silent and non-acknowledging spectators, undrained events, lossy and ack-outage backgrounds, with the buffer-size accessor read after every call; k<=1 deviation windows across ring wraps; hard bounds + plateau rule',
+        'Every buffer stays under its configuration-dependent bound after every call and does not grow between the middle and the last third of the run.'),
  'C13':(M,'6 C13','grid enumeration of all builder configurations x input programs, and every (frame, simulation index) placement of a nondeterministic step; reference model of the expected verdict',
         'Every configuration of the grid is either rejected by the builder (and must be invalid) or run 60 frames; every placement of one perturbed simulation must be reported within check_distance+2 calls naming frame g+1. One known finding (first simulation never checksummed).'),
 }
